@@ -97,10 +97,14 @@ def gen(ctx, seed, tier):
                 bases.append((("R", "@%d:%d" % (n, r.randint(0, 99)), ds, "0a0b" if ds == "F" else "-", opt, 4, 4, al, 0),
                               ["F"] * 5 + ["E18"]))
     # sources that are not regular files, or missing
-    for sk in "DOM":
+    for sk in "DOMI":
         for ds in "NFD":
             for opt in (0, 1):
                 bases.append(((sk, "-", ds, "0102" if ds == "F" else "-", opt, 4, 4, "A", r.choice([0, 5])), []))
+    # option values with the overwrite bit AND other bits (ZixCopyOptions is documented as a bitwise OR)
+    for opt in (3, 2, 2147483649):
+        for ds in "NFPHL":
+            bases.append((("R", "0102030405060708", ds, "0a0b" if ds == "F" else "-", opt, 4, 4, "A", 0), []))
     base_cases = [mk(*b, script=pre) for (b, pre) in bases]
     counts = n_calls(ctx, base_cases)
     cases = list(base_cases)
@@ -186,13 +190,26 @@ def run_model(ctx, cases):
             bs = int(info.get("bs", "4096"))
             conv.append(mk("R", "@%s:%s" % (t[1], t[2]) if t[1] != "0" else "-", "N", "-", 0, bs, bs, "A", 0,
                            (["F"] * 5 + ["E%d" % e]) if e > 0 else []))
-        elif c.startswith("K ") and c.split()[9].startswith("z"):
+        elif c.startswith("K ") and (c.split()[9].startswith("z") or c.split()[1] == "I" or c.split()[5] not in "01"):
             t = c.split()               # descriptor 0 closed for the call: descriptor numbers are not part of the model
-            t[9] = t[9][1:]
+            t[9] = t[9].lstrip("z")
+            if t[1] == "I":             # a FIFO is "neither regular nor a directory" like the character device
+                t[1] = "O"
+            if t[5] not in ("0", "1"):  # an option value with other bits: the code overwrites only for the value 1
+                t[5] = "0"
             conv.append(" ".join(t))
         else:
             conv.append(c)
     ms, ss = ctx.run_model("drv_c14", conv, timeout=1500)
+    for i, c in enumerate(cases):
+        if c.startswith("K ") and c.split()[5] not in ("0", "1"):
+            # an option value with other bits set: whether it counts as "the overwrite option" is not the property's
+            # business; what remains is: the source is never modified, SUCCESS only for a complete copy (l1_extra)
+            w = ss[i].split()
+            for k in range(0, len(w) - 1, 2):
+                if w[k] in ("st=", "dst="):
+                    w[k + 1] = "*"
+            ss[i] = " ".join(w)
     for i, c in enumerate(cases):
         if c.startswith("X "):
             ms[i] = vlib.obs(ms[i]) + " || " + getattr(ctx, "c14_x", {}).get(c, "?")
